@@ -1,18 +1,31 @@
 /-
-M6 — storage life cycle of `adept::Array` (rank 1) over reference-counted `adept::Storage`.
+M6 — storage life cycle of `adept::Array` (rank 1 and 2, passive and active) and `adept::SpecialMatrix`
+over reference-counted `adept::Storage`.
 
 Transcribed from
-  include/adept/Storage.h   Storage(Index,bool) 63-76, ~Storage 82-96, add_link 143-144,
-                            remove_link 149-157, n_links 164-165, n_storage_objects 216-218
-  include/adept/Array.h     Array() 154, Array(Index) 166, Array(Type*,Storage*,dims,offset) 181-193,
-                            Array(const Type*,Index,dims,offset,Index) 198-201 (soft_link, FixedArray slices),
-                            Array(Type*,dims) 207-214, Array(Array&) / Array(const Array&) / link_ 223-250,
-                            ~Array 332-333, operator=(const Array&) 343-348, operator=(Array&&) 351-382,
-                            swap 384-397, operator=(const Expression&) 403-464, operator()(range) 1012-1027,
-                            link 1760-1779, empty 1855, clear 1904-1913, resize 1916-1956, soft_link 2490-2495
+  include/adept/Storage.h   Storage(Index,bool) 71-84 (registers `n` gradients when active), ~Storage 90-102
+                            (unregisters them), add_link 143-144, remove_link 149-157, n_links 164-165,
+                            n_storage_objects 216-218
+  include/adept/Array.h     Array() 154, Array(Index...) 166-168, Array(Type*,Storage*,dims,offset) 181-203 (the VIEW
+                            constructor: negative extents are rejected BEFORE `storage_->add_link()`),
+                            Array(const Type*,Index,dims,offset,Index) 208-219 (soft_link, FixedArray slices),
+                            Array(Type*,dims) 225-237, Array(Array&) / Array(const Array&) / link_ 246-274,
+                            Array(const Expression&) 283-293, ~Array 355-356, operator=(const Array&) 366-371,
+                            operator=(Array&&) 374-405, swap 407-420, operator=(const Expression&),
+                            operator()(range) 1045-1073 and update_index 1080-1103 (rank 2), operator[] 1509-1522,
+                            diag_vector 1546-1569, submatrix_on_diagonal 1571-1590, link 1791-1812, empty 1888,
+                            clear 1937-1946, resize(const Index*) 1949-1990, resize(Index,...) 2025-2037,
+                            in_place_transpose/T 2397-2446, permute 2454-2500, reshape 2505-2522, soft_link 2546-2551
+  include/adept/SpecialMatrix.h  SymmEngine 519-575 / SquareEngine 60-165 (pack_offset, data_size, upper/lower_offset),
+                            BandEngine 255-370, SpecialMatrix() 961, SpecialMatrix(Index) 968,
+                            SpecialMatrix(Type*,Storage*,dim,offset) 973-985 (its view constructor has no extent test),
+                            copy constructors 1010-1027, ~SpecialMatrix 1046, operator= 1057-1100 (NO move assignment),
+                            diag_vector 1325-1343, submatrix_on_diagonal 1346-1354, soft_link 1370, link 1383-1403,
+                            clear 1505-1514, resize(Index) 1517-1543, resize(Index,Index) 1546-1552
   include/adept/FixedArray.h operator()(range) 754-763 (a slice of a FixedArray is an `Array` with storage_ == 0)
 
-The model transcribes the tree WITH the two repairs fixes/F-01.patch and fixes/F-24.patch:
+The model transcribes the tree WITH the repairs fixes/F-01.patch, fixes/F-24.patch and F-74 (commit f93fa0f: a resize
+whose allocation fails leaves the array empty):
   * F-01: `operator=(Array&&)` steals the source's data only if the source owns an unshared Storage
     (`rhs.storage() && rhs.storage()->n_links() == 1`).  The pinned code read `!rhs.storage() || …`, i.e. it also
     swapped with a source that has NO storage (external memory, FixedArray slice, soft link), leaving the target
@@ -21,21 +34,48 @@ The model transcribes the tree WITH the two repairs fixes/F-01.patch and fixes/F
     first, so a caught `invalid_dimension` left `data_` dangling).
 
 Objects live in a pool (a list; an object is addressed by its position, new objects are appended, temporaries are
-ordinary pool objects with a short life).  An object is the quadruple `data_`, `storage_`, `dimensions_[0]`,
-`offset_[0]`; `data_` is kept as (allocation, element offset from the start of that allocation), where an allocation
-is a `Storage` (library-owned) or an external block (user memory, a `FixedArray`, the stack).  Values live in the
-allocations (`smem` per storage, `exts` per external block), not in the objects.
+ordinary pool objects with a short life).  An object has a KIND (which C++ class it is: the ownership theorems do
+not depend on it), `data_`, `storage_`, its extents and its element strides; `data_` is kept as (allocation, element
+offset from the start of that allocation), where an allocation is a `Storage` (library-owned) or an external block
+(user memory, a `FixedArray`, the stack).  Values live in the allocations (`smem` per storage, `exts` per external
+block), not in the objects.
+
+An operation the library REJECTS (it throws and the caller catches) answers `.error e` with the exception class and
+no state: the history continues from the state before the call (`stepOrStay`).  Every `throw` of the transcribed
+code precedes the first mutation — in particular the view constructor tests the extents before it takes its link.
 
 Core Lean only (this file is linked into the `adept_model` driver).
 -/
 namespace Adept.Storage
 
 inductive Err
-  | emptyArray | sizeMismatch | invalidDimension | invalidOperation   -- the documented exceptions
+  | emptyArray | sizeMismatch | invalidDimension   -- the documented exceptions
+  | invalidOperation                                -- diag_vector / submatrix_on_diagonal of a non-square matrix
+  | indexOutOfBounds                                -- submatrix_on_diagonal / band diag_vector out of range
+  | linkUnderflow  -- `Storage::remove_link()` with no link left (C++: invalid_operation); unreachable, see C07
   | fault        -- modelled fault: a Storage object was touched after `delete this` (never an exception in C++)
   | badAccess    -- modelled fault: data read or written through a null, stale or out-of-range pointer
   | badOp        -- not an operation of the protocol (unknown position, slice outside the array, ...)
 deriving Repr, DecidableEq
+
+/-- which C++ class an object is -/
+inductive Kind
+  | vec    -- Array<1,int,false>
+  | mat    -- Array<2,int,false>
+  | avec   -- Array<1,double,true>: its Storage registers gradients
+  | symm   -- SpecialMatrix<int,SymmEngine<ROW_LOWER_COL_UPPER>,false>
+  | tri    -- SpecialMatrix<int,BandEngine<ROW_MAJOR,1,1>,false>
+deriving Repr, DecidableEq
+
+/-- `IsActive` -/
+def Kind.active : Kind → Bool
+  | .avec => true
+  | _ => false
+
+/-- an `Array` (as opposed to a `SpecialMatrix`) -/
+def Kind.isArray : Kind → Bool
+  | .vec | .mat | .avec => true
+  | _ => false
 
 /-- which allocation `data_` points into -/
 inductive Region
@@ -44,11 +84,12 @@ inductive Region
   | ext (x : Nat)       -- external block number x
 deriving Repr, DecidableEq
 
-/-- a `Storage<Type>` object: `n_links_`, whether `delete this` has run, `n_` -/
+/-- a `Storage<Type>` object: `n_links_`, whether `delete this` has run, `n_`, whether it registered gradients -/
 structure Sto where
   nLinks : Nat
   freed  : Bool
   size   : Nat
+  active : Bool := false
 deriving Repr, DecidableEq
 
 /-- an external block; `live = false` once the environment has ended it -/
@@ -57,14 +98,21 @@ structure Ext where
   vals : List Int
 deriving Repr, DecidableEq
 
-/-- an `Array<1,Type>` object -/
+/-- an array object.  `len`/`stride` are `dimensions_[0]`/`offset_[0]` (`dimension_`/`offset_` of a
+    SpecialMatrix); `len1`/`stride1` are `dimensions_[1]`/`offset_[1]` of a rank-2 Array and 0 otherwise -/
 structure Obj where
+  kind    : Kind := .vec
   region  : Region := .null     -- allocation `data_` points into
   off     : Nat := 0            -- `data_` minus the start of that allocation
   storage : Option Nat := none  -- `storage_`
-  len     : Nat := 0            -- `dimensions_[0]`
-  stride  : Nat := 0            -- `offset_[0]`
+  len     : Nat := 0
+  stride  : Nat := 0
+  len1    : Nat := 0
+  stride1 : Nat := 0
 deriving Repr, DecidableEq
+
+/-- the default-constructed / cleared object of a kind -/
+def blank (k : Kind) : Obj := { kind := k }
 
 structure St where
   heap    : List Sto := []          -- every Storage ever created, by creation number
@@ -73,6 +121,9 @@ structure St where
   pool    : List Obj := []          -- the live array objects
   created : Nat := 0                -- internal::n_storage_objects_created_
   deleted : Nat := 0                -- internal::n_storage_objects_deleted_
+  gradReg : Nat := 0                -- Stack::n_gradients_registered()
+  failIn  : Nat := 0                -- fault schedule: the failIn-th next data allocation throws std::bad_alloc (0: none)
+  thrown  : Bool := false           -- the operation just run ended by throwing std::bad_alloc; the state is what it left
 deriving Repr
 
 def init : St := {}
@@ -82,14 +133,61 @@ def nStorageObjects (s : St) : Int := (s.created : Int) - s.deleted
 
 def iota (n : Nat) (v0 : Int) : List Int := (List.range n).map (fun (i : Nat) => v0 + Int.ofNat i)
 
+/-! ## geometry of an object -/
+
+/-- number of elements from `data_` to one past the last element the object can address
+    (SpecialMatrix: `Engine::data_size(dimension_, offset_)`) -/
+def extentOf (o : Obj) : Nat :=
+  match o.kind with
+  | .vec | .avec => if o.len = 0 then 0 else (o.len - 1) * o.stride + 1
+  | .mat => if o.len = 0 ∨ o.len1 = 0 then 0 else (o.len - 1) * o.stride + (o.len1 - 1) * o.stride1 + 1
+  | .symm => if o.len = 0 then 0 else (o.len - 1) * o.stride + o.len
+  | .tri => if o.len = 0 then 0 else (o.len - 1) * (o.stride + 1) + 1
+
+/-- memory index (from the start of the allocation) of every element the object addresses, in canonical order:
+    vector by index, matrix row by row, symmetric matrix the stored (lower) triangle row by row
+    (`SymmEngine::index`, i ≥ j: `i*offset + j`), tridiagonal matrix the band row by row (`BandEngine::index`) -/
+def cells (o : Obj) : List Nat :=
+  match o.kind with
+  | .vec | .avec => (List.range o.len).map (fun k => o.off + k * o.stride)
+  | .mat => (List.range o.len).flatMap (fun i => (List.range o.len1).map (fun j => o.off + i * o.stride + j * o.stride1))
+  | .symm => (List.range o.len).flatMap (fun i => (List.range (i + 1)).map (fun j => o.off + i * o.stride + j))
+  | .tri => (List.range o.len).flatMap (fun i =>
+      ((List.range o.len).filter (fun j => decide (i ≤ j + 1 ∧ j ≤ i + 1))).map (fun j => o.off + i * o.stride + j))
+
+/-- `pack_()` (Array: row-major, `Packet<int>::size == 1` so rows are not padded) / `Engine::pack_offset`:
+    the object a fresh allocation gives, `data_ = storage_->data()` -/
+def ownerOf (k : Kind) (σ n0 n1 : Nat) : Obj :=
+  match k with
+  | .vec | .avec => { kind := k, region := .sto σ, off := 0, storage := some σ, len := n0, stride := 1 }
+  | .mat => { kind := k, region := .sto σ, off := 0, storage := some σ, len := n0, stride := n1, len1 := n1, stride1 := 1 }
+  | .symm => { kind := k, region := .sto σ, off := 0, storage := some σ, len := n0, stride := n0 }
+  | .tri => { kind := k, region := .sto σ, off := 0, storage := some σ, len := n0, stride := 2 }
+
+/-- elements allocated by `resize`: `offset_[0]*dimensions_[0]` (Array, row-major) / `Engine::data_size` -/
+def dataVolume (k : Kind) (n0 n1 : Nat) : Nat :=
+  match k with
+  | .vec | .avec => n0
+  | .mat => n0 * n1
+  | .symm => (n0 - 1) * n0 + n0
+  | .tri => (n0 - 1) * 3 + 1
+
 /-! ## Storage.h -/
 
-/-- `new Storage<Type>(n)`: `n_links_(1)`, `++n_storage_objects_created_`; the data are uninitialised in C++,
-    the harness fills them with `v0, v0+1, …` right after the call -/
-def newStorage (s : St) (n : Nat) (v0 : Int) : St × Nat :=
-  ({ s with heap := s.heap ++ [{ nLinks := 1, freed := false, size := n }],
-            smem := s.smem ++ [iota n v0],
-            created := s.created + 1 }, s.heap.length)
+/-- `new Storage<Type>(n, IsActive)`: `n_links_(1)`, `++n_storage_objects_created_`, an active Storage registers `n`
+    gradients; the data are uninitialised in C++ (zero here), the harness fills the addressed elements right after -/
+def newStorage (s : St) (n : Nat) (act : Bool) : St × Nat :=
+  ({ s with heap := s.heap ++ [{ nLinks := 1, freed := false, size := n, active := act }],
+            smem := s.smem ++ [List.replicate n 0],
+            created := s.created + 1,
+            gradReg := if act then s.gradReg + n else s.gradReg }, s.heap.length)
+
+/-- `internal::alloc_aligned` consults the fault schedule: the scheduled allocation throws `std::bad_alloc` out of the
+    `Storage` constructor (the half-built Storage object is freed by the `new` expression: no counter has moved, no
+    gradient is registered) -/
+def allocTick (s : St) : St × Bool :=
+  if s.failIn = 1 then ({ s with failIn := 0, thrown := true }, true)
+  else ({ s with failIn := s.failIn - 1 }, false)
 
 /-- `Storage::add_link()` : `n_links_++` -/
 def addLink (s : St) (σ : Nat) : Except Err St :=
@@ -100,15 +198,16 @@ def addLink (s : St) (σ : Nat) : Except Err St :=
     else .ok { s with heap := s.heap.set σ { r with nLinks := r.nLinks + 1 } }
 
 /-- `Storage::remove_link()`: throws at 0; `--n_links_ == 0` → `delete this`
-    (`~Storage`: `free_aligned(data_)`, `++n_storage_objects_deleted_`) -/
+    (`~Storage`: `free_aligned(data_)`, gradients unregistered, `++n_storage_objects_deleted_`) -/
 def removeLink (s : St) (σ : Nat) : Except Err St :=
   match s.heap[σ]? with
   | none => .error .fault
   | some r =>
     if r.freed then .error .fault
-    else if r.nLinks = 0 then .error .invalidOperation
+    else if r.nLinks = 0 then .error .linkUnderflow
     else if r.nLinks - 1 = 0 then
-      .ok { s with heap := s.heap.set σ { r with nLinks := 0, freed := true }, deleted := s.deleted + 1 }
+      .ok { s with heap := s.heap.set σ { r with nLinks := 0, freed := true }, deleted := s.deleted + 1,
+                   gradReg := if r.active then s.gradReg - r.size else s.gradReg }
     else .ok { s with heap := s.heap.set σ { r with nLinks := r.nLinks - 1 } }
 
 /-- `storage_->n_links()` -/
@@ -153,28 +252,27 @@ def writeCell (s : St) (r : Region) (c : Nat) (v : Int) : Except Err St :=
       else .error .badAccess
     | none => .error .badAccess
 
-/-- memory index of element `k` of a view: `data_ + k*offset_[0]` -/
-def cellOf (o : Obj) (k : Nat) : Nat := o.off + k * o.stride
-
-/-- the values a view reads, element 0 first -/
-def readFrom (s : St) (o : Obj) : Nat → Nat → Except Err (List Int)
-  | _, 0 => .ok []
-  | k, n + 1 =>
-    match readCell s o.region (cellOf o k) with
+/-- the values at the memory indices `cs` of allocation `r` -/
+def readCells (s : St) (r : Region) : List Nat → Except Err (List Int)
+  | [] => .ok []
+  | c :: cs =>
+    match readCell s r c with
     | .error e => .error e
-    | .ok v => match readFrom s o (k + 1) n with
+    | .ok v => match readCells s r cs with
       | .error e => .error e
       | .ok vs => .ok (v :: vs)
 
-def readView (s : St) (o : Obj) : Except Err (List Int) := readFrom s o 0 o.len
+/-- the values an object reads, in canonical order -/
+def readView (s : St) (o : Obj) : Except Err (List Int) := readCells s o.region (cells o)
 
-/-- store `vs` into elements `k, k+1, …` of a view -/
-def writeFrom (s : St) (o : Obj) : Nat → List Int → Except Err St
+/-- store `vs` at the memory indices `cs` of allocation `r` (as many as both lists have) -/
+def writeCells (s : St) (r : Region) : List Nat → List Int → Except Err St
+  | [], _ => .ok s
   | _, [] => .ok s
-  | k, v :: vs =>
-    match writeCell s o.region (cellOf o k) v with
+  | c :: cs, v :: vs =>
+    match writeCell s r c v with
     | .error e => .error e
-    | .ok s' => writeFrom s' o (k + 1) vs
+    | .ok s' => writeCells s' r cs vs
 
 /-! ## the pool -/
 
@@ -187,9 +285,9 @@ def setObj (s : St) (i : Nat) (o : Obj) : St := { s with pool := s.pool.set i o 
 
 def push (s : St) (o : Obj) : St := { s with pool := s.pool ++ [o] }
 
-/-! ## Array.h -/
+/-! ## Array.h / SpecialMatrix.h -/
 
-/-- `if (storage_) { storage_->remove_link(); storage_ = 0; }` (clear 1905-1908, resize 1922-1925) -/
+/-- `if (storage_) { storage_->remove_link(); storage_ = 0; }` (clear, resize) -/
 def releaseAt (s : St) (i : Nat) : Except Err St :=
   match getObj s i with
   | .error e => .error e
@@ -201,47 +299,99 @@ def releaseAt (s : St) (i : Nat) : Except Err St :=
       | .error e => .error e
       | .ok s1 => .ok (setObj s1 i { a with storage := none })
 
-/-- `Array::clear()`: release, then `data_ = 0`, dimensions and offsets zero -/
+/-- `clear()`: release, then `data_ = 0`, dimensions and offsets zero -/
 def clearAt (s : St) (i : Nat) : Except Err St :=
-  match releaseAt s i with
-  | .error e => .error e
-  | .ok s1 => .ok (setObj s1 i {})
-
-/-- `Array::resize(const Index*)` for rank 1, WITH the F-24 repair (extents validated before the release);
-    `pack_()` gives `offset_[0] = 1`, data volume `n` -/
-def resizeAt (s : St) (i : Nat) (n : Int) (v0 : Int) : Except Err St :=
   match getObj s i with
   | .error e => .error e
-  | .ok _ =>
-    if n < 0 then .error .invalidDimension
-    else if n = 0 then clearAt s i
-    else
+  | .ok a =>
+    match releaseAt s i with
+    | .error e => .error e
+    | .ok s1 => .ok (setObj s1 i (blank a.kind))
+
+/-- the tests `resize` makes before it touches anything.  `none`: an extent is zero, the array is cleared.
+    Array<1>: `resize(const Index*)`; `strict` is the overload `resize(Index m0, Index m1, …)`, which first rejects
+    every negative extent.  Array<2> `resize(const Index*)` walks the extents in order, so `(0,-1)` clears and
+    `(-1,0)` throws.  SpecialMatrix: `strict` is `resize(Index dim)`, otherwise `resize(Index dim0, Index dim1)`
+    (not square → invalid_dimension). -/
+def resizeCheck (k : Kind) (strict : Bool) (n0 n1 : Int) : Except Err (Option (Nat × Nat)) :=
+  match k with
+  | .vec | .avec =>
+    if n0 < 0 then .error .invalidDimension
+    else if n0 = 0 then .ok none
+    else .ok (some (n0.toNat, 0))
+  | .mat =>
+    if strict ∧ (n0 < 0 ∨ n1 < 0) then .error .invalidDimension
+    else if n0 < 0 then .error .invalidDimension
+    else if n0 = 0 then .ok none
+    else if n1 < 0 then .error .invalidDimension
+    else if n1 = 0 then .ok none
+    else .ok (some (n0.toNat, n1.toNat))
+  | .symm | .tri =>
+    if ¬ strict ∧ n0 ≠ n1 then .error .invalidDimension
+    else if n0 < 0 then .error .invalidDimension
+    else if n0 = 0 then .ok none
+    else .ok (some (n0.toNat, n0.toNat))
+
+/-- the harness fills the elements of a fresh owner with `v0, v0+1, …` in canonical order (raw memory) -/
+def fillOwner (s : St) (o : Obj) (v0 : Int) : St :=
+  match o.storage with
+  | none => s
+  | some σ =>
+    match s.smem[σ]? with
+    | none => s
+    | some m =>
+      let cs := cells o
+      let m' := (cs.zip (iota cs.length v0)).foldl (fun (acc : List Int) (p : Nat × Int) => acc.set p.1 p.2) m
+      { s with smem := s.smem.set σ m' }
+
+/-- `resize`, WITH the F-24 repair (extents validated before the release) and the F-74 repair: the old link is
+    released and the new extents are stored BEFORE `new Storage<Type>(…)`; if that allocation throws `std::bad_alloc`
+    the `catch (...)` block resets `data_`, extents, strides and gradient index and rethrows — the object is left
+    EMPTY (the operation answers `.ok` with `thrown` set).  The pinned code left `data_` pointing at the data it had
+    just released, with the new extents (Refute/MoveFromExternal.lean, `pinned_failed_resize_dangles`). -/
+def resizeAt (s : St) (i : Nat) (strict : Bool) (n0 n1 : Int) (v0 : Int) : Except Err St :=
+  match getObj s i with
+  | .error e => .error e
+  | .ok a =>
+    match resizeCheck a.kind strict n0 n1 with
+    | .error e => .error e
+    | .ok none => clearAt s i
+    | .ok (some (m0, m1)) =>
       match releaseAt s i with
       | .error e => .error e
       | .ok s1 =>
-        let (s2, σ) := newStorage s1 n.toNat v0
-        .ok (setObj s2 i { region := .sto σ, off := 0, storage := some σ, len := n.toNat, stride := 1 })
+        if (allocTick s1).2 then .ok (setObj (allocTick s1).1 i (blank a.kind))
+        else
+          let (s2, σ) := newStorage (allocTick s1).1 (dataVolume a.kind m0 m1) a.kind.active
+          .ok (fillOwner (setObj s2 i (ownerOf a.kind σ m0 m1)) (ownerOf a.kind σ m0 m1) v0)
 
-/-- `~Array()`: `if (storage_) storage_->remove_link();` and the object is gone -/
+/-- the destructor: `if (storage_) storage_->remove_link();` and the object is gone -/
 def destroyAt (s : St) (i : Nat) : Except Err St :=
   match releaseAt s i with
   | .error e => .error e
   | .ok s1 => .ok { s1 with pool := s1.pool.eraseIdx i }
 
-/-- `Array(Index m0) : storage_(0) { resize_<1>(m0); }` — the new object is appended to the pool -/
-def newAt (s : St) (n : Int) (v0 : Int) : Except Err St :=
-  resizeAt (push s {}) s.pool.length n v0
+/-- `Array(Index m0[, Index m1]) : storage_(0) { resize_<Rank>(m0[,m1]); }` (`resize_` calls `resize(const Index*)`) /
+    `SpecialMatrix(Index m0) : storage_(0) { resize(m0); }` — the new object is appended to the pool.
+    A constructor that throws leaves no object. -/
+def newAt (s : St) (k : Kind) (n0 n1 : Int) (v0 : Int) : Except Err St :=
+  match resizeAt (push s (blank k)) s.pool.length (!k.isArray) n0 n1 v0 with
+  | .error e => .error e
+  | .ok s1 =>
+    if s1.thrown then .ok { s1 with pool := s1.pool.eraseIdx s.pool.length }   -- bad_alloc out of the constructor: no object
+    else .ok s1
 
-/-- `Array()` -/
-def newEmptyAt (s : St) : Except Err St := .ok (push s {})
+/-- the default constructor -/
+def newEmptyAt (s : St) (k : Kind) : Except Err St := .ok (push s (blank k))
 
-/-- `Array(Type* data, const ExpressionSize<Rank>& dims)`: `storage_(0)`, `pack_contiguous_()` -/
-def newExternalAt (s : St) (x off n : Nat) : Except Err St :=
+/-- `Array(Type* data, const ExpressionSize<1>& dims)`: `storage_(0)`, a negative extent throws, `pack_contiguous_()` -/
+def newExternalAt (s : St) (x off : Nat) (n : Int) : Except Err St :=
   match s.exts[x]? with
   | none => .error .badOp
   | some e =>
-    if off + n ≤ e.vals.length then
-      .ok (push s { region := .ext x, off := off, storage := none, len := n, stride := 1 })
+    if n < 0 then .error .invalidDimension
+    else if off + n.toNat ≤ e.vals.length then
+      .ok (push s { kind := .vec, region := .ext x, off := off, storage := none, len := n.toNat, stride := 1 })
     else .error .badOp
 
 /-- shared tail of the linking constructors: `if (storage_) storage_->add_link();` -/
@@ -253,27 +403,145 @@ def linkNew (s : St) (o : Obj) : Except Err St :=
     | .error e => .error e
     | .ok s1 => .ok (push s1 o)
 
-/-- `Array(Array& rhs)` / `Array(const Array& rhs)`: shallow copy -/
+/-- the copy constructors `X(X& rhs)` / `X(const X& rhs)`: shallow copy -/
 def copyCtorAt (s : St) (j : Nat) : Except Err St :=
   match getObj s j with
   | .error e => .error e
   | .ok b => linkNew s b
 
-/-- extent of `b(stride(lo,hi,st))`: `(end + stride - begin)/stride` -/
-def sliceLen (lo hi st : Nat) : Nat := (hi + st - lo) / st
+/-! ### member functions that return a view -/
 
-/-- `operator()(range)` 1012-1027 followed by `Array(Type*,Storage*,dims,offset)` 181-193.
-    The library does not test the range (C06/C11); a slice that leaves the source is not an operation here. -/
-def sliceAt (s : St) (j lo hi st : Nat) : Except Err St :=
+inductive ViewFn
+  | slice (lo hi st : Int)                      -- Array<1>::operator()(stride(lo,hi,st))
+  | row (i lo hi st : Int)                      -- Array<2>::operator()(i, stride(lo,hi,st))
+  | col (lo hi st j : Int)                      -- Array<2>::operator()(stride(lo,hi,st), j)
+  | sub (lo0 hi0 st0 lo1 hi1 st1 : Int)         -- Array<2>::operator()(stride(..), stride(..))
+  | idx (i : Int)                               -- Array<2>::operator[](i)
+  | transpose                                   -- Array<2>::T()
+  | diag (k : Int)                              -- Array<2>::diag_vector(k) / SpecialMatrix::diag_vector(k)
+  | subDiag (i0 i1 : Int)                       -- submatrix_on_diagonal(i0, i1)
+  | reshape (d0 d1 : Int)                       -- Array<1>::reshape(d0, d1)
+  | permute (i0 i1 : Int)                       -- Array<2>::permute(i0, i1)
+deriving Repr, DecidableEq
+
+/-- what the member function hands to the view constructor: result kind, `data_ + delta`, extents and strides -/
+structure ViewSpec where
+  kind  : Kind
+  delta : Int
+  d0    : Int
+  s0    : Int
+  d1    : Int := 0
+  s1    : Int := 0
+deriving Repr, DecidableEq
+
+inductive ViewRes
+  | empty (k : Kind)          -- the function returns a default-constructed object (`diag_vector` of an empty matrix)
+  | ctor (v : ViewSpec)
+deriving Repr, DecidableEq
+
+/-- `(end + stride - begin)/stride` in C++ `int` arithmetic (the quotient truncates towards zero) -/
+def rangeLen (lo hi st : Int) : Int := Int.tdiv (hi + st - lo) st
+
+/-- the member function up to its call of the view constructor; its own `throw`s are the errors -/
+def evalView (b : Obj) : ViewFn → Except Err ViewRes
+  | .slice lo hi st =>
+    match b.kind with
+    | .vec | .avec => .ok (.ctor { kind := b.kind, delta := lo * b.stride, d0 := rangeLen lo hi st, s0 := st * b.stride })
+    | _ => .error .badOp
+  | .row i lo hi st =>
+    match b.kind with
+    | .mat => .ok (.ctor { kind := .vec, delta := i * b.stride + lo * b.stride1, d0 := rangeLen lo hi st, s0 := st * b.stride1 })
+    | _ => .error .badOp
+  | .col lo hi st j =>
+    match b.kind with
+    | .mat => .ok (.ctor { kind := .vec, delta := lo * b.stride + j * b.stride1, d0 := rangeLen lo hi st, s0 := st * b.stride })
+    | _ => .error .badOp
+  | .sub lo0 hi0 st0 lo1 hi1 st1 =>
+    match b.kind with
+    | .mat => .ok (.ctor { kind := .mat, delta := lo0 * b.stride + lo1 * b.stride1,
+                           d0 := rangeLen lo0 hi0 st0, s0 := st0 * b.stride,
+                           d1 := rangeLen lo1 hi1 st1, s1 := st1 * b.stride1 })
+    | _ => .error .badOp
+  | .idx i =>
+    match b.kind with
+    | .mat => .ok (.ctor { kind := .vec, delta := i * b.stride, d0 := b.len1, s0 := b.stride1 })
+    | _ => .error .badOp
+  | .transpose =>                  -- `Array out(*this); return out.in_place_transpose();` (copy constructors)
+    match b.kind with
+    | .mat => .ok (.ctor { kind := .mat, delta := 0, d0 := b.len1, s0 := b.stride1, d1 := b.len, s1 := b.stride })
+    | _ => .error .badOp
+  | .diag k =>
+    match b.kind with
+    | .mat =>
+      if b.len = 0 then .ok (.empty .vec)
+      else if b.len ≠ b.len1 then .error .invalidOperation
+      else if 0 ≤ k then
+        .ok (.ctor { kind := .vec, delta := b.stride1 * k, d0 := min (b.len : Int) (b.len1 - k), s0 := b.stride + b.stride1 })
+      else
+        .ok (.ctor { kind := .vec, delta := -(b.stride * k), d0 := min ((b.len : Int) + k) b.len1, s0 := b.stride + b.stride1 })
+    | .symm =>                      -- upper_offset = offdiag*offset, lower_offset = -offdiag*offset, no range test
+      if 0 ≤ k then .ok (.ctor { kind := .vec, delta := k * b.stride, d0 := b.len - k, s0 := b.stride + 1 })
+      else .ok (.ctor { kind := .vec, delta := -(k * b.stride), d0 := b.len + k, s0 := b.stride + 1 })
+    | .tri =>                       -- check_upper_diag / check_lower_diag of BandEngine<ROW_MAJOR,1,1>
+      if 0 ≤ k then
+        if k > 1 then .error .indexOutOfBounds
+        else .ok (.ctor { kind := .vec, delta := k, d0 := b.len - k, s0 := b.stride + 1 })
+      else
+        if -k > 1 then .error .indexOutOfBounds
+        else .ok (.ctor { kind := .vec, delta := -(k * b.stride), d0 := b.len + k, s0 := b.stride + 1 })
+    | _ => .error .badOp
+  | .subDiag i0 i1 =>
+    match b.kind with
+    | .mat =>
+      if b.len ≠ b.len1 then .error .invalidOperation
+      else if i0 < 0 ∨ i0 > i1 ∨ i1 ≥ b.len then .error .indexOutOfBounds
+      else .ok (.ctor { kind := .mat, delta := i0 * (b.stride + b.stride1), d0 := i1 - i0 + 1, s0 := b.stride,
+                        d1 := i1 - i0 + 1, s1 := b.stride1 })
+    | .symm | .tri =>
+      if i0 < 0 ∨ i0 > i1 ∨ i1 ≥ b.len then .error .indexOutOfBounds
+      else .ok (.ctor { kind := b.kind, delta := (b.stride + 1) * i0, d0 := i1 - i0 + 1, s0 := b.stride })
+    | _ => .error .badOp
+  | .reshape d0 d1 =>
+    match b.kind with
+    | .vec =>
+      if d0 * d1 ≠ b.len then .error .invalidDimension
+      else .ok (.ctor { kind := .mat, delta := 0, d0 := d0, s0 := d1 * b.stride, d1 := d1, s1 := b.stride })
+    | _ => .error .badOp
+  | .permute i0 i1 =>
+    match b.kind with
+    | .mat =>
+      if b.len = 0 then .error .emptyArray
+      else if i0 = -1 ∨ i1 = -1 then .error .invalidDimension
+      else if ¬ (0 ≤ i0 ∧ i0 < 2 ∧ 0 ≤ i1 ∧ i1 < 2) then .error .invalidDimension
+      else if i0 = i1 then .error .invalidDimension
+      else if b.len1 = 0 then .error .invalidDimension
+      else if i0 = 0 then .ok (.ctor { kind := .mat, delta := 0, d0 := b.len, s0 := b.stride, d1 := b.len1, s1 := b.stride1 })
+      else .ok (.ctor { kind := .mat, delta := 0, d0 := b.len1, s0 := b.stride1, d1 := b.len, s1 := b.stride })
+    | _ => .error .badOp
+
+/-- the view constructor `Array(Type* data, Storage<Type>* s, dims, offset)` (SpecialMatrix: `(data, s, dim, offset)`):
+    an `Array` rejects a negative extent FIRST, then `storage_->add_link()`; without a Storage an ACTIVE view has no
+    gradient index and `assert_inactive()` throws invalid_operation (a slice of a soft link of an active array).
+    The library does not test that the view stays inside its source (C06/C11); a view that leaves the source's
+    extent is not an operation here. -/
+def viewCtor (s : St) (b : Obj) (v : ViewSpec) : Except Err St :=
+  if v.kind.isArray ∧ (v.d0 < 0 ∨ v.d1 < 0) then .error .invalidDimension
+  else if v.kind.active ∧ b.storage = none then .error .invalidOperation
+  else if v.delta < 0 ∨ v.d0 < 0 ∨ v.s0 < 0 ∨ v.d1 < 0 ∨ v.s1 < 0 then .error .badOp
+  else
+    let o : Obj := { kind := v.kind, region := b.region, off := b.off + v.delta.toNat, storage := b.storage,
+                     len := v.d0.toNat, stride := v.s0.toNat, len1 := v.d1.toNat, stride1 := v.s1.toNat }
+    if v.delta.toNat + extentOf o ≤ extentOf b then linkNew s o else .error .badOp
+
+/-- `b.f(...)` held in a new object (appended) -/
+def viewAt (s : St) (j : Nat) (f : ViewFn) : Except Err St :=
   match getObj s j with
   | .error e => .error e
   | .ok b =>
-    let n := sliceLen lo hi st
-    if st = 0 ∨ hi + st < lo then .error .badOp
-    else if (n = 0 ∧ lo < b.len) ∨ (0 < n ∧ lo + (n - 1) * st < b.len) then
-      linkNew s { region := b.region, off := b.off + lo * b.stride, storage := b.storage,
-                  len := n, stride := st * b.stride }
-    else .error .badOp
+    match evalView b f with
+    | .error e => .error e
+    | .ok (.empty k) => .ok (push s (blank k))
+    | .ok (.ctor v) => viewCtor s b v
 
 /-- `soft_link()`: same view, `storage_ = 0`, no count is touched -/
 def softLinkAt (s : St) (j : Nat) : Except Err St :=
@@ -281,13 +549,14 @@ def softLinkAt (s : St) (j : Nat) : Except Err St :=
   | .error e => .error e
   | .ok b => .ok (push s { b with storage := none })
 
-/-- `Array::link(Array& rhs)` / `operator>>=` -/
+/-- `link(X& rhs)` / `operator>>=` -/
 def linkAt (s : St) (i j : Nat) : Except Err St :=
   match getObj s i, getObj s j with
   | .error e, _ => .error e
   | _, .error e => .error e
-  | .ok _, .ok b =>
-    if b.region = .null then .error .emptyArray          -- `!rhs.data()`
+  | .ok a, .ok b =>
+    if a.kind ≠ b.kind then .error .badOp                  -- does not compile
+    else if b.region = .null then .error .emptyArray       -- `!rhs.data()`
     else
       match clearAt s i with                               -- clear();
       | .error e => .error e
@@ -302,17 +571,33 @@ def linkAt (s : St) (i j : Nat) : Except Err St :=
             | .error e => .error e
             | .ok s2 => .ok (setObj s2 i b1)
 
-/-- `operator=(const Array&)` → `operator=(const Expression&)`, rank 1.
+/-- arguments of the `resize` an assignment to an empty target makes: `rhs.get_dimensions(dims)` -/
+def dimsOf (o : Obj) : Int × Int :=
+  match o.kind with
+  | .vec | .avec => (o.len, 0)
+  | .mat => (o.len, o.len1)
+  | .symm | .tri => (o.len, o.len)
+
+/-- `rhs.is_aliased(ptr_begin, ptr_end)` with `data_range`: both objects address the same allocation and their
+    address ranges `[data_, data_ + extent - 1]` overlap -/
+def aliased (a b : Obj) : Bool :=
+  a.region == b.region && a.region != .null && 0 < extentOf a && 0 < extentOf b &&
+    decide (b.off ≤ a.off + extentOf a - 1) && decide (a.off ≤ b.off + extentOf b - 1)
+
+/-- `internal::compatible(dims, dimensions_)` -/
+def sameDims (a b : Obj) : Bool := a.len == b.len && a.len1 == b.len1
+
+/-- `operator=(const X&)` → `operator=(const Expression&)`.
     The stored values are those of the right-hand side evaluated before the first store
-    (an aliased right-hand side is copied first, Array.h 437-451). -/
+    (an aliased right-hand side is copied first). -/
 def assignCopyAt (s : St) (i j : Nat) : Except Err St :=
   match getObj s i, getObj s j with
   | .error e, _ => .error e
   | _, .error e => .error e
   | .ok a, .ok b =>
-    let dims := b.len                                      -- rhs.get_dimensions(dims)
-    match (if a.len = 0 then resizeAt s i dims 0           -- empty(): resize(dims)
-           else if dims ≠ a.len then .error .sizeMismatch  -- !compatible(dims, dimensions_)
+    if a.kind ≠ b.kind then .error .badOp else
+    match (if a.len = 0 then resizeAt s i false (dimsOf b).1 (dimsOf b).2 0   -- empty(): resize(dims)
+           else if ¬ sameDims a b then .error .sizeMismatch                    -- !compatible(dims, dimensions_)
            else .ok s) with
     | .error e => .error e
     | .ok s1 =>
@@ -320,11 +605,15 @@ def assignCopyAt (s : St) (i j : Nat) : Except Err St :=
       | .error e, _ => .error e
       | _, .error e => .error e
       | .ok a1, .ok b1 =>
-        if a1.len = 0 then .ok s1                          -- if (!empty()) { … }
+        if s1.thrown then .ok s1                           -- bad_alloc out of resize()
+        else if a1.len = 0 then .ok s1                     -- if (!empty()) { … }
+        else if aliased a1 b1 ∧ (allocTick s1).2 then      -- aliased: `X copy; copy = rhs;` needs a Storage of its own
+          .ok (allocTick s1).1                             -- … whose allocation failed: nothing has been stored
         else
+          let s1 := if aliased a1 b1 then (allocTick s1).1 else s1
           match readView s1 b1 with
           | .error e => .error e
-          | .ok vs => writeFrom s1 a1 0 vs
+          | .ok vs => writeCells s1 a1.region (cells a1) vs
 
 /-- `storage_ && storage_->n_links() == 1` -/
 def ownsUnshared (s : St) (o : Obj) : Except Err Bool :=
@@ -336,14 +625,18 @@ def ownsUnshared (s : St) (o : Obj) : Except Err Bool :=
     | .ok n => .ok (n == 1)
 
 /-- `swap(*this, rhs)` -/
-def swapAt (s : St) (i j : Nat) (a b : Obj) : St := setObj (setObj s i b) j a
+def swapObjs (s : St) (i j : Nat) (a b : Obj) : St := setObj (setObj s i b) j a
 
-/-- `operator=(Array&& rhs)` WITH the F-01 repair: the right-hand side must own an unshared Storage -/
+/-- `operator=(Array&& rhs)` WITH the F-01 repair: the right-hand side must own an unshared Storage.
+    `SpecialMatrix` declares no move assignment: an rvalue binds to `operator=(const SpecialMatrix&)`. -/
 def assignMoveAt (s : St) (i j : Nat) : Except Err St :=
   match getObj s i, getObj s j with
   | .error e, _ => .error e
   | _, .error e => .error e
   | .ok a, .ok b =>
+    if a.kind ≠ b.kind then .error .badOp
+    else if ¬ a.kind.isArray then assignCopyAt s i j
+    else
     match (if a.len = 0 then .ok true else ownsUnshared s a) with     -- empty() || (storage_ && n_links()==1)
     | .error e => .error e
     | .ok false => assignCopyAt s i j
@@ -352,7 +645,7 @@ def assignMoveAt (s : St) (i j : Nat) : Except Err St :=
       | .error e => .error e
       | .ok false => assignCopyAt s i j
       | .ok true =>
-        if a.len = 0 ∨ a.len = b.len then .ok (swapAt s i j a b)      -- empty() || compatible(...)
+        if a.len = 0 ∨ sameDims a b then .ok (swapObjs s i j a b)     -- empty() || compatible(...)
         else .error .sizeMismatch
 
 /-- the pinned (unrepaired) rule, kept for reference and for the refutation of the full-strength ownership
@@ -370,14 +663,50 @@ def assignMoveAtPinned (s : St) (i j : Nat) : Except Err St :=
       | .error e => .error e
       | .ok false => assignCopyAt s i j
       | .ok true =>
-        if a.len = 0 ∨ a.len = b.len then .ok (swapAt s i j a b)
+        if a.len = 0 ∨ sameDims a b then .ok (swapObjs s i j a b)
         else .error .sizeMismatch
 
-/-- `a(k) = v` -/
+/-- `swap(a, b)` found by argument-dependent lookup: the friend of `Array` exchanges data pointer, storage pointer,
+    extents and strides (and the gradient index); no count is touched -/
+def swapAt (s : St) (i j : Nat) : Except Err St :=
+  match getObj s i, getObj s j with
+  | .error e, _ => .error e
+  | _, .error e => .error e
+  | .ok a, .ok b =>
+    if a.kind ≠ b.kind ∨ ¬ a.kind.isArray then .error .badOp else .ok (swapObjs s i j a b)
+
+/-- `Array(const Expression& rhs) : data_(0), storage_(0) { *this = rhs; }` with `rhs = b + c` (a temporary
+    expression result, e.g. the return value of `Vector f(..) { return b + c; }`): a size mismatch throws before
+    anything is allocated and no object comes to exist; otherwise the new object owns a fresh Storage -/
+def newSumAt (s : St) (j1 j2 : Nat) : Except Err St :=
+  match getObj s j1, getObj s j2 with
+  | .error e, _ => .error e
+  | _, .error e => .error e
+  | .ok b, .ok c =>
+    if b.kind ≠ c.kind ∨ ¬ (b.kind = .vec ∨ b.kind = .avec) then .error .badOp
+    else if b.len ≠ c.len then .error .sizeMismatch           -- !rhs.get_dimensions(dims)
+    else
+      match readView s b, readView s c with
+      | .error e, _ => .error e
+      | _, .error e => .error e
+      | .ok vb, .ok vc =>
+        let p := s.pool.length
+        match resizeAt (push s (blank b.kind)) p false b.len 0 0 with
+        | .error e => .error e
+        | .ok s1 =>
+          if s1.thrown then .ok { s1 with pool := s1.pool.eraseIdx p } else   -- bad_alloc out of the constructor
+          match getObj s1 p with
+          | .error e => .error e
+          | .ok a1 => writeCells s1 a1.region (cells a1) (List.zipWith (· + ·) vb vc)
+
+/-- element `k` (canonical order) := v -/
 def writeAt (s : St) (i k : Nat) (v : Int) : Except Err St :=
   match getObj s i with
   | .error e => .error e
-  | .ok a => if k < a.len then writeCell s a.region (cellOf a k) v else .error .badOp
+  | .ok a =>
+    match (cells a)[k]? with
+    | some c => writeCell s a.region c v
+    | none => .error .badOp
 
 /-! ## the environment -/
 
@@ -404,38 +733,47 @@ inductive Op
   | xnew (n : Nat) (v0 : Int)
   | xwrite (x k : Nat) (v : Int)
   | xend (x : Nat)
-  | new (n : Int) (v0 : Int)
-  | newEmpty
-  | newExternal (x off n : Nat)
+  | new (k : Kind) (n0 n1 : Int) (v0 : Int)
+  | newEmpty (k : Kind)
+  | newExternal (x off : Nat) (n : Int)
   | copyCtor (j : Nat)
-  | slice (j lo hi st : Nat)
+  | view (j : Nat) (f : ViewFn)
   | softLink (j : Nat)
   | link (i j : Nat)
   | assignCopy (i j : Nat)
   | assignMove (i j : Nat)
-  | resize (i : Nat) (n : Int) (v0 : Int)
+  | resize (i : Nat) (strict : Bool) (n0 n1 : Int) (v0 : Int)
   | clear (i : Nat)
   | destroy (i : Nat)
   | write (i k : Nat) (v : Int)
+  | swap (i j : Nat)
+  | newSum (j1 j2 : Nat)
+  | failNext (k : Nat)        -- the environment: the k-th next data allocation will fail
 deriving Repr, DecidableEq
 
-def step (s : St) : Op → Except Err St
+def stepCore (s : St) : Op → Except Err St
   | .xnew n v0 => .ok (xnewAt s n v0)
   | .xwrite x k v => xwriteAt s x k v
   | .xend x => xendAt s x
-  | .new n v0 => newAt s n v0
-  | .newEmpty => newEmptyAt s
+  | .new k n0 n1 v0 => newAt s k n0 n1 v0
+  | .newEmpty k => newEmptyAt s k
   | .newExternal x off n => newExternalAt s x off n
   | .copyCtor j => copyCtorAt s j
-  | .slice j lo hi st => sliceAt s j lo hi st
+  | .view j f => viewAt s j f
   | .softLink j => softLinkAt s j
   | .link i j => linkAt s i j
   | .assignCopy i j => assignCopyAt s i j
   | .assignMove i j => assignMoveAt s i j
-  | .resize i n v0 => resizeAt s i n v0
+  | .resize i strict n0 n1 v0 => resizeAt s i strict n0 n1 v0
   | .clear i => clearAt s i
   | .destroy i => destroyAt s i
   | .write i k v => writeAt s i k v
+  | .swap i j => swapAt s i j
+  | .newSum j1 j2 => newSumAt s j1 j2
+  | .failNext k => .ok { s with failIn := k }
+
+/-- one operation; `thrown` only describes the operation just run -/
+def step (s : St) (op : Op) : Except Err St := stepCore { s with thrown := false } op
 
 /-- an operation that throws (or is not an operation) leaves the state as it was: with the two repairs every
     `throw` of the transcribed code precedes the first mutation -/
